@@ -14,7 +14,7 @@
    durable", and the idempotence lemmas of replay.  The replay equivalence as a whole ("answered
    exactly as in an uninterrupted run") stays decided by fault enumeration on the real code (see the
    check), and is REFUTED for a crash after a poll that delivered only a prefix of the blocks (F4). *)
-From TeosModel Require Import Base TxIndex Tower TowerStable TowerInv TowerLedger Crash CrashOps CrashOpsProofs.
+From TeosModel Require Import Base TxIndex Tower TowerStable TowerInv TowerLedger Crash CrashOps CrashOpsProofs CrashReplay CrashReplayProofs.
 From TeosModel.Gen Require Bootstrap.
 Local Open Scope N_scope.
 
@@ -212,6 +212,177 @@ Theorem C03_lkb_persisted_after_poll le t blocks tip s0 :
   ds_lkb (poll_crash_at le (S (length (poll_blocks le t blocks))) t blocks tip s0) = Some tip.
 Proof. exact (lkb_persisted_after_poll le t blocks tip s0). Qed.
 
+(* ============================== replay equivalence ============================== *)
+(* "after catching up with the chain the tower answers exactly as an uninterrupted run would" - as far as it is
+   TRUE and proved.  The node of the replay is the node of the first attempt, later: CrashReplay.consistent (same
+   verdict, or acceptable-then-confirmed: -27).  FALSE in general: the recorded finding
+   tracker-never-created-penalty-confirmed-while-down ... *)
+Theorem C03_replay_block_refuted :
+  exists le t o sc1 sc2 k,
+    Inv t /\ at_poll_boundary t /\ consistent t sc1 sc2 /\
+    not_abort (snd (step le t o sc1)) /\
+    not_abort (snd (step le (restart t (crash_at le k t o sc1)) o sc2)) /\
+    ~ eq_up_to_stamp (db_of (fst (step le (restart t (crash_at le k t o sc1)) o sc2)))
+                     (db_of (fst (step le t o sc1))) /\
+    has_app (db_of (fst (step le (restart t (crash_at le k t o sc1)) o sc2))) (7, 1) = true /\
+    has_trk (db_of (fst (step le (restart t (crash_at le k t o sc1)) o sc2))) (7, 1) = false /\
+    has_trk (db_of (fst (step le t o sc1))) (7, 1) = true.
+Proof. exact replay_block_refuted. Qed.
+
+(* ... TRUE outside that class (replay_ok: per breached row, same verdict, or confirmed meanwhile AND the tracker was
+   already inserted) for the gatekeeper and watcher listeners of a block, kill after the purge and ANY number j of the
+   watcher's tracker inserts: the replay ends in EXACTLY the tables of the uninterrupted run at that point *)
+Theorem C03_replay_gatekeeper_watcher sc1 sc2 tA hash txs j tg tA' tB' :
+  Inv tA -> at_poll_boundary tA ->
+  gk_block_connected tA (gk_height tA + 1) = Ok tt tg ->
+  w_block_connected sc1 tg (cache_block hash txs) (gk_height tA + 1) = Ok tt tA' ->
+  let dB := execs (db_of tg) (firstn j (w_inserts sc1 tg txs)) in
+  replay_ok tg dB txs sc1 sc2 ->
+  gw_connected sc2 (restart tA dB) hash txs = Ok tt tB' ->
+  db_of tB' = db_of tA'.
+Proof. exact (gw_replay sc1 sc2 tA hash txs j tg tA' tB'). Qed.
+
+(* the watcher's listener IS the execution of (tracker inserts of the breached rows ++ DELETE of the invalid ones), a
+   pure function of the appointments, the responder's index, the carrier's height and the node's answers: dB above
+   is a crash prefix of the real trace *)
+Theorem C03_watcher_is_its_pure_trace sc t hash txs h t' :
+  memo_coherent sc t -> w_block_connected sc t (cache_block hash txs) h = Ok tt t' ->
+  db_of t' = execs (db_of t) (w_inserts sc t txs ++ w_delete (w_invalid sc t txs)).
+Proof. exact (w_pure sc t hash txs h t'). Qed.
+
+Theorem C03_watcher_replay sc1 sc2 tA tB hash txs h j tA' tB' :
+  memo_coherent sc1 tA -> memo_coherent sc2 tB ->
+  r_index tB = r_index tA -> car_height tB = car_height tA ->
+  db_of tB = execs (db_of tA) (firstn j (w_inserts sc1 tA txs)) ->
+  replay_ok tA (db_of tB) txs sc1 sc2 ->
+  w_block_connected sc1 tA (cache_block hash txs) h = Ok tt tA' ->
+  w_block_connected sc2 tB (cache_block hash txs) h = Ok tt tB' ->
+  db_of tB' = db_of tA'.
+Proof. exact (watcher_replay sc1 sc2 tA tB hash txs h j tA' tB'). Qed.
+
+Theorem C03_insert_block_replay l j d : ins_only l -> execs (execs d (firstn j l)) l = execs d l.
+Proof. exact (ins_block_replay l j d). Qed.
+
+(* the purge replayed after its commit by a tower whose gatekeeper was reloaded from the purged table: nothing to do *)
+Theorem C03_gatekeeper_replay_done tA h tA' tB :
+  Inv tA -> gk_block_connected tA h = Ok tt tA' ->
+  cfg tB = cfg tA -> gk_users tB = db_users tA' ->
+  gk_block_connected tB h = Ok tt (set_gk_height tB h).
+Proof. exact (gatekeeper_replay_done tA h tA' tB). Qed.
+
+(* what is left of the block is the responder's pass, which the replay starts from the SAME tables, index, heights
+   and reorged set (only the carrier's memo and the RPC log differ); its equivalence up to the stamp is NOT proved *)
+Theorem C03_replay_block_upto_responder sc1 sc2 tA hash txs j tg tw tBw :
+  Inv tA -> at_poll_boundary tA ->
+  gk_block_connected tA (gk_height tA + 1) = Ok tt tg ->
+  w_block_connected sc1 tg (cache_block hash txs) (gk_height tA + 1) = Ok tt tw ->
+  let dB := execs (db_of tg) (firstn j (w_inserts sc1 tg txs)) in
+  replay_ok tg dB txs sc1 sc2 ->
+  gw_connected sc2 (restart tA dB) hash txs = Ok tt tBw ->
+  db_of tBw = db_of tw /\ r_index tBw = r_index tw /\ car_height tBw = car_height tw /\ reorged tBw = reorged tw /\
+  gk_height tBw = gk_height tw /\ w_height tBw = w_height tw /\ cfg tBw = cfg tw.
+Proof. exact (replay_block_upto_responder sc1 sc2 tA hash txs j tg tw tBw). Qed.
+
+(* the responder's pass of the replay: same tables / gatekeeper map / index / empty reorged set at its start, memos that
+   differ but are sound, rejections stable between the two scripts: equal up to the stamp of unconfirmed trackers *)
+Theorem C03_responder_replay le sc1 sc2 tA tB b h tA' tB' :
+  mem_eq tA tB -> reorged tA = [] -> r_index tB = r_index tA ->
+  memo_sound sc1 tA -> memo_sound sc2 tB -> rej_stable tA sc1 sc2 ->
+  r_block_connected le sc1 tA b h = Ok tt tA' -> r_block_connected le sc2 tB b h = Ok tt tB' ->
+  eq_up_to_stamp (db_of tB') (db_of tA').
+Proof. exact (responder_replay le sc1 sc2 tA tB b h tA' tB'). Qed.
+
+(* REPLAY EQUIVALENCE OF A BLOCK (operation level).  t reachable, at a poll boundary; OConnect with the node answering
+   sc1, killed when ng + j statements of its durable trace (CrashOps.op_stmts) are done: ng = the gatekeeper's (0 or 1),
+   j <= the watcher's tracker inserts, i.e. anywhere from the purge's commit to just before the watcher's DELETE;
+   restart; OConnect of the same block with the node answering sc2.  Outside the recorded class (replay_ok) and with
+   stable rejections (rej_stable): the tables are those of the uninterrupted run up to the stamp of unconfirmed
+   trackers.  (Kills before the purge's commit: C03_replay_connect_before; inside the responder's own statements: not covered.) *)
+Theorem C03_replay_connect le t hash txs sc1 sc2 j tg :
+  Inv t -> at_poll_boundary t ->
+  not_abort (snd (step le t (OConnect hash txs) sc1)) ->
+  gk_block_connected (TowerProofs.fresh t) (gk_height t + 1) = Ok tt tg ->
+  (j <= length (w_inserts sc1 tg txs))%nat ->
+  let ng := length (stmts_of (tr_gk_block (TowerProofs.fresh t) (gk_height t + 1))) in
+  let d := execs (db_of t) (firstn (ng + j) (op_stmts le t (OConnect hash txs) sc1)) in
+  replay_ok tg d txs sc1 sc2 -> rej_stable t sc1 sc2 ->
+  not_abort (snd (step le (restart t d) (OConnect hash txs) sc2)) ->
+  eq_up_to_stamp (db_of (fst (step le (restart t d) (OConnect hash txs) sc2))) (db_of (fst (step le t (OConnect hash txs) sc1))).
+Proof. exact (replay_connect le t hash txs sc1 sc2 j tg). Qed.
+
+(* ... and a kill BEFORE anything of the block is durable (in particular before the purge's commit: the gatekeeper's map
+   reloaded from the unpurged table outdates the same users): the restarted tower holds the tables of before the block *)
+Theorem C03_replay_connect_before le t hash txs sc1 sc2 tg :
+  Inv t -> at_poll_boundary t ->
+  not_abort (snd (step le t (OConnect hash txs) sc1)) ->
+  gk_block_connected (TowerProofs.fresh t) (gk_height t + 1) = Ok tt tg ->
+  replay_ok tg (db_of tg) txs sc1 sc2 -> rej_stable t sc1 sc2 ->
+  not_abort (snd (step le (restart t (db_of t)) (OConnect hash txs) sc2)) ->
+  eq_up_to_stamp (db_of (fst (step le (restart t (db_of t)) (OConnect hash txs) sc2))) (db_of (fst (step le t (OConnect hash txs) sc1))).
+Proof. exact (replay_connect_before le t hash txs sc1 sc2 tg). Qed.
+
+Theorem C03_gatekeeper_replay_before tA h tg tB :
+  Inv tA -> gk_block_connected tA h = Ok tt tg ->
+  cfg tB = cfg tA -> gk_users tB = db_users tA -> db_of tB = db_of tA ->
+  exists tgB, gk_block_connected tB h = Ok tt tgB /\ db_of tgB = db_of tg /\ gk_users tgB = db_users tg.
+Proof. exact (gatekeeper_replay_before tA h tg tB). Qed.
+
+(* every crash index k of the operation is such a statement index *)
+Theorem C03_crash_index_is_statement_index le t o sc k :
+  exists n, crash_at le k t o sc = execs (db_of t) (firstn n (op_stmts le t o sc)).
+Proof. unfold crash_at, op_stmts. destruct (stmts_firstn (op_micro le t o sc) k) as [n Hn]. exists n. rewrite Hn. reflexivity. Qed.
+
+(* multi-block polls: the last known block is written after the listeners of ALL blocks (Gen/Bootstrap), so a kill in
+   block i has blocks 1..i-1 delivered again: the watcher's pass over a block it had COMPLETED changes nothing *)
+Theorem C03_watcher_replay_completed sc1 sc2 tA tB hash txs h tA' tB' :
+  Inv tA -> memo_coherent sc1 tA -> memo_coherent sc2 tB ->
+  r_index tB = r_index tA -> car_height tB = car_height tA ->
+  db_of tB = db_of tA' ->
+  replay_ok tA (db_of tB) txs sc1 sc2 ->
+  w_block_connected sc1 tA (cache_block hash txs) h = Ok tt tA' ->
+  w_block_connected sc2 tB (cache_block hash txs) h = Ok tt tB' ->
+  db_of tB' = db_of tA'.
+Proof. exact (watcher_replay_completed sc1 sc2 tA tB hash txs h tA' tB'). Qed.
+
+Theorem C03_lkb_written_after_all_blocks :
+  Bootstrap.POLL_PERSISTS_BETTER_TIP = true /\ Bootstrap.LAST_KNOWN_BLOCK_WRITERS = 2%nat /\
+  forall le k t blocks tip s0, (k <= length (poll_blocks le t blocks))%nat ->
+    ds_lkb (poll_crash_at le k t blocks tip s0) = ds_lkb s0.
+Proof. split; [reflexivity|]. split; [reflexivity|]. exact lkb_not_advanced_mid_poll. Qed.
+
+(* API operations.  register is one statement: a kill leaves the tables before or after it *)
+Theorem C03_register_crash_two_states le t u sc k :
+  not_abort (snd (step le t (ORegister u) sc)) ->
+  crash_at le k t (ORegister u) sc = db_of t \/
+  crash_at le k t (ORegister u) sc = db_of (fst (step le t (ORegister u) sc)).
+Proof. exact (register_crash_two_states le t u sc k). Qed.
+
+(* ... and its resubmission is not idempotent (registration is additive by design) *)
+Theorem C03_register_resubmission_refuted :
+  exists le t u sc k,
+    Inv t /\ let t2 := restart t (crash_at le k t (ORegister u) sc) in
+    balance (db_of (fst (step le t2 (ORegister u) sc))) u =
+    balance (db_of (fst (step le t (ORegister u) sc))) u + c_slots (cfg t).
+Proof. exact register_resubmission_refuted. Qed.
+
+(* add_appointment, the receipt lost in the kill (every statement done), the client resubmits to the restarted tower:
+   same receipt data, EXACTLY the tables of the uninterrupted run *)
+Theorem C03_add_resubmission_reply_lost le t u loc b delay sig sc sc' t' st sg sl e :
+  Inv t -> ti_get (w_cache t) loc = None ->
+  step le t (OAdd (Some u) loc b delay sig) sc = (t', OAddRes (AddOk st sg sl e)) ->
+  let t2 := restart t (db_of t') in
+  db_of (fst (step le t2 (OAdd (Some u) loc b delay sig) sc')) = db_of t' /\
+  snd (step le t2 (OAdd (Some u) loc b delay sig) sc') = OAddRes (AddOk st sg sl e).
+Proof. exact (add_resubmission_reply_lost le t u loc b delay sig sc sc' t' st sg sl e). Qed.
+
+(* ... killed between the charge and the store, the resubmission is charged again (the in-flight cost) *)
+Theorem C03_add_resubmission_in_window_refuted :
+  exists le t o sc k u,
+    Inv t /\ let t2 := restart t (crash_at le k t o sc) in
+    d_apps (db_of (fst (step le t2 o sc))) = d_apps (db_of (fst (step le t o sc))) /\
+    balance (db_of (fst (step le t2 o sc))) u + 2 = balance (db_of (fst (step le t o sc))) u.
+Proof. exact add_resubmission_in_window_refuted. Qed.
+
 (* ---- non-vacuity: a concrete reachable tower (CrashOps.ex_t) and concrete operations ---- *)
 Definition mk (m : micro) : N :=
   match m with
@@ -264,6 +435,48 @@ Example C03_ex_register_get :
   map mk (op_micro true ex_t (OGet (Some 1) 7) []) = [30] /\ map mk (op_micro true ex_t ODisconnect []) = [].
 Proof. vm_compute. auto. Qed.
 
+(* replay: the example block (dispute of user 1's appointment), consistent scripts (the penalty confirmed while down):
+   a kill after the tracker INSERT (3 micro steps) replays to the same tables; the hypotheses of
+   C03_replay_gatekeeper_watcher hold for j = 1 (replay_ok through its second disjunct) and fail for j = 0 *)
+Example C03_ex_replay :
+  consistent ex_t ex_sc1 ex_sc2 /\ at_poll_boundary ex_t /\
+  db_of (fst (step true (restart ex_t (crash_at true 3 ex_t ex_block ex_sc1)) ex_block ex_sc2)) = db_of (fst (step true ex_t ex_block ex_sc1)) /\
+  length (w_inserts ex_sc1 ex_t [7]) = 1%nat /\
+  has_trk (execs (db_of ex_t) (firstn 1 (w_inserts ex_sc1 ex_t [7]))) (7, 1) = true /\
+  has_trk (execs (db_of ex_t) (firstn 0 (w_inserts ex_sc1 ex_t [7]))) (7, 1) = false /\
+  node_status ex_sc1 ex_t 9 = InMempoolSince 120 /\ node_status ex_sc2 ex_t 9 = IrrevocablyResolved.
+Proof. split; [exact ex_scripts_consistent|]. split; [exact ex_t_boundary|]. vm_compute. repeat split; reflexivity. Qed.
+
+(* the hypotheses of C03_replay_connect hold on the example (kill after the tracker INSERT: j = 1; the penalty confirmed
+   while down: replay_ok through its second disjunct), so its conclusion applies *)
+Example C03_ex_replay_connect :
+  eq_up_to_stamp
+    (db_of (fst (step true (restart ex_t (execs (db_of ex_t) (firstn (0 + 1) (op_stmts true ex_t ex_block ex_sc1)))) ex_block ex_sc2)))
+    (db_of (fst (step true ex_t ex_block ex_sc1))).
+Proof.
+  apply (C03_replay_connect true ex_t 5000 [7] ex_sc1 ex_sc2 1 (set_gk_height (TowerProofs.fresh ex_t) 121)).
+  - exact ex_t_inv.
+  - exact ex_t_boundary.
+  - vm_compute. exact I.
+  - vm_compute. reflexivity.
+  - vm_compute. apply le_n.
+  - intros a p Hin Hl Hd Hi. right.
+    assert (Ha : a = mk_app 7 1 (mk_blob 7 (Some 9) 4100) 20 1 120 \/ a = mk_app 8 2 (mk_blob 8 (Some 19) 100) 20 2 120).
+    { revert Hin. vm_compute. intros [H|[H|[]]]; [left|right]; symmetry; exact H. }
+    destruct Ha as [-> | ->].
+    + vm_compute in Hd. inversion Hd; subst p. vm_compute. repeat split; reflexivity.
+    + exfalso. revert Hl. vm_compute. intros [H|[]]; discriminate H.
+  - intros tx. unfold ex_sc1, ex_sc2, script_get. cbn [aget]. destruct (N.eqb tx 9); vm_compute; reflexivity.
+  - vm_compute. exact I.
+Qed.
+
+(* resubmission after a lost reply on the example tower: hypotheses of C03_add_resubmission_reply_lost *)
+Example C03_ex_resubmission :
+  let o := OAdd (Some 2) 9 (mk_blob 9 (Some 29) 2049) 20 4 in
+  ti_get (w_cache ex_t) 9 = None /\ snd (step true ex_t o []) = OAddRes (AddOk 120 4 7 420) /\
+  db_of (fst (step true (restart ex_t (db_of (fst (step true ex_t o [])))) o [])) = db_of (fst (step true ex_t o [])).
+Proof. vm_compute. repeat split; reflexivity. Qed.
+
 Print Assumptions C03_op_is_its_trace.
 Print Assumptions C03_op_rpcs_are_its_trace.
 Print Assumptions C03_crash_integrity.
@@ -281,3 +494,21 @@ Print Assumptions C03_acked_survives.
 Print Assumptions C03_ack_after_durable.
 Print Assumptions C03_replay_idempotent_partial.
 Print Assumptions C03_lkb_persisted_after_poll.
+Print Assumptions C03_replay_block_refuted.
+Print Assumptions C03_replay_gatekeeper_watcher.
+Print Assumptions C03_watcher_is_its_pure_trace.
+Print Assumptions C03_watcher_replay.
+Print Assumptions C03_insert_block_replay.
+Print Assumptions C03_gatekeeper_replay_done.
+Print Assumptions C03_replay_block_upto_responder.
+Print Assumptions C03_register_crash_two_states.
+Print Assumptions C03_register_resubmission_refuted.
+Print Assumptions C03_add_resubmission_reply_lost.
+Print Assumptions C03_add_resubmission_in_window_refuted.
+Print Assumptions C03_watcher_replay_completed.
+Print Assumptions C03_lkb_written_after_all_blocks.
+Print Assumptions C03_responder_replay.
+Print Assumptions C03_replay_connect.
+Print Assumptions C03_crash_index_is_statement_index.
+Print Assumptions C03_replay_connect_before.
+Print Assumptions C03_gatekeeper_replay_before.
